@@ -26,6 +26,8 @@ structure Cfg.WF (c : Cfg) : Prop where
   wseq_complete : ∀ j, j < c.nParts → ∀ r ∈ allRefs c j, LastTouch (c.wseq j) r .ok
   /-- deleting a stale partition only touches its objects and never makes one whole -/
   rmStale_ok : ∀ j, ∀ p ∈ c.rmStale j, p.2 ≠ .ok
+  /-- deleting a left-over work directory only touches the partition's own objects, never makes one whole -/
+  rmWork_ok : ∀ j, ∀ p ∈ c.rmWork j, p.1 ∈ allRefs c j ∧ p.2 ≠ .ok
   /-- every entry a partition owns is listed when its directory is scanned -/
   mv_all : ∀ j a, ∀ e ∈ c.ents j a, e ∈ c.mvOrder j a
   /-- … and no entry is listed twice (a directory listing has no duplicates): a second
@@ -107,7 +109,7 @@ theorem C06_finalise_rerun_completes_or_errors (c : Cfg) (wf : c.WF) (h : List (
     The repaired swap refuses to finalise in the same history. -/
 theorem C06_unrepaired_swap_counterexample :
     let c : Cfg := { nParts := 1, nArrays := 1, ents := fun _ _ => [0], initSeq := [(.tmpl 0, .ok)],
-                     wseq := fun _ => [(.hdr 0, .ok), (.ent 0 0, .ok)], rmStale := fun _ => [(.ent 0 0, .absent), (.hdr 0, .absent)],
+                     wseq := fun _ => [(.hdr 0, .ok), (.ent 0 0, .ok)], rmWork := fun _ => [(.ent 0 0, .absent), (.hdr 0, .absent)], rmStale := fun _ => [(.ent 0 0, .absent), (.hdr 0, .absent)],
                      mvOrder := fun _ _ => [0], rmWip := [(.plan, .absent)], ridxSeq := [] }
     let s1 := runHist c Fs.empty [(.init, none), (.partition 0, none)]
     -- rerun of partition 0 with the unrepaired swap, killed after 4 mutations: inside the delete of p0
